@@ -12,6 +12,7 @@ import (
 	"time"
 
 	"verif/internal/core"
+	"verif/internal/rawhttp"
 )
 
 // c16Bound is T of the bounded restatement: end-of-stream at the far peer
@@ -21,16 +22,17 @@ const c16Bound = 10 * time.Second
 
 // c16Case is one bridged connection history.
 type c16Case struct {
-	ID     int    `json:"id"`
-	Closer string `json:"closer"`      // client | server: the TCP peer that closes first
-	Kind   string `json:"close_kind"`  // full | half-then-full (CloseWrite, observed only, then Close, judged) | abort (SetLinger(0)+Close: the peer goes away with a reset)
-	Flight string `json:"in_flight"`   // virgin | idle | same | opposite | both | unread (the other peer's N bytes sit unread in the closer's socket, nobody is sending)
-	N      int    `json:"n"`           // bytes the closer writes right before closing (same, both) / exchanged earlier (idle) / left unread (unread)
-	Slow   bool   `json:"slow_reader"` // the other peer reads at ~2.7 MB/s only (32 KiB every 12 ms), also after the close
-	Chunk  int    `json:"chunk"`       // write size of the other peer's continuous stream (opposite, both)
-	Drain  bool   `json:"drain"`       // the closer reads the other peer's stream until it closes (else it never reads)
-	Phase  string `json:"phase"`       // matrix | churn | confirm
-	Class  string `json:"class"`
+	ID      int    `json:"id"`
+	Closer  string `json:"closer"`                    // client | server: the TCP peer that closes first
+	Kind    string `json:"close_kind"`                // full | half-then-full (CloseWrite, observed only, then Close, judged) | abort (SetLinger(0)+Close: the peer goes away with a reset)
+	Flight  string `json:"in_flight"`                 // virgin | idle | same | opposite | both | unread (the other peer's N bytes sit unread in the closer's socket, nobody is sending)
+	N       int    `json:"n"`                         // bytes the closer writes right before closing (same, both) / exchanged earlier (idle) / left unread (unread)
+	Slow    bool   `json:"slow_reader"`               // the other peer reads at ~2.7 MB/s only (32 KiB every 12 ms), also after the close
+	Chunk   int    `json:"chunk"`                     // write size of the other peer's continuous stream (opposite, both)
+	Drain   bool   `json:"drain"`                     // the closer reads the other peer's stream until it closes (else it never reads)
+	StallMs int    `json:"reader_stall_ms,omitempty"` // the other peer reads nothing for this long (from connection set-up), then drains at full speed
+	Phase   string `json:"phase"`                     // matrix | churn | slow | stalled | confirm
+	Class   string `json:"class"`
 }
 
 type c16Result struct {
@@ -43,6 +45,7 @@ type c16Result struct {
 	Altered        bool    `json:"received_bytes_altered,omitempty"`
 	HalfObserved   string  `json:"after_half_close,omitempty"` // "eos within 2s" | "no eos within 2s"
 	OtherWrote     int64   `json:"bytes_other_peer_wrote"`
+	WriteErr       string  `json:"writer_failed_before_it_closed,omitempty"`
 	Harness        string  `json:"harness_problem,omitempty"`
 	FrontSockets   int     `json:"frontend_sockets_after,omitempty"`
 	BackSockets    int     `json:"backend_sockets_after,omitempty"`
@@ -74,13 +77,14 @@ type c16Peer struct {
 	eosAt    time.Time
 	stop     atomic.Bool
 	slow     atomic.Bool // read 32 KiB every 12 ms only
+	stallEnd time.Time   // read nothing before this instant
 	done     chan struct{}
 }
 
 // c16NewPeer wraps one harness end; with read=false the end never reads,
 // with slow=true it reads at a trickle.
-func c16NewPeer(conn *net.TCPConn, expect *bridgeStream, read, slow bool) *c16Peer {
-	p := &c16Peer{conn: conn, v: bridgeNewVerifier(expect), done: make(chan struct{})}
+func c16NewPeer(conn *net.TCPConn, expect *bridgeStream, read, slow bool, stall time.Duration) *c16Peer {
+	p := &c16Peer{conn: conn, v: bridgeNewVerifier(expect), done: make(chan struct{}), stallEnd: time.Now().Add(stall)}
 	p.slow.Store(slow)
 	if read {
 		go p.readLoop()
@@ -95,6 +99,9 @@ func c16NewPeer(conn *net.TCPConn, expect *bridgeStream, read, slow bool) *c16Pe
 func (p *c16Peer) readLoop() {
 	defer close(p.done)
 	buf := make([]byte, 64<<10)
+	for time.Now().Before(p.stallEnd) && !p.stop.Load() {
+		time.Sleep(20 * time.Millisecond)
+	}
 	for {
 		if p.stop.Load() {
 			return
@@ -266,11 +273,14 @@ func (e *c16Engine) run(cs c16Case) (res c16Result) {
 	if cs.Flight == "unread" {
 		xTotal = 0 // the closer writes nothing
 	}
-	py := c16NewPeer(y, bridgeNewStream(seed, cs.ID, 'x', xTotal), true, cs.Slow) // y reads what x wrote
-	px := c16NewPeer(x, bridgeNewStream(seed, cs.ID, 'y', endless), (!streaming || cs.Drain) && cs.Flight != "unread", false)
+	py := c16NewPeer(y, bridgeNewStream(seed, cs.ID, 'x', xTotal), true, cs.Slow, time.Duration(cs.StallMs)*time.Millisecond) // y reads what x wrote
+	px := c16NewPeer(x, bridgeNewStream(seed, cs.ID, 'y', endless), (!streaming || cs.Drain) && cs.Flight != "unread", false, 0)
 	wbound := c16Bound
 	if cs.Slow {
 		wbound = c16Bound + time.Duration(cs.N/(1<<20))*time.Second // the burst drains at the slow reader's pace
+	}
+	if cs.StallMs > 0 {
+		wbound = c16Bound + time.Duration(cs.StallMs)*time.Millisecond + time.Duration(cs.N/(1<<20))*time.Second
 	}
 	var yWrote atomic.Int64
 	var yStop atomic.Bool
@@ -373,13 +383,17 @@ func (e *c16Engine) run(cs c16Case) (res c16Result) {
 	if cs.Flight == "same" || cs.Flight == "both" {
 		n, err := c16Write(x, xs, xTotal, wbound)
 		res.PreCloseSent = n
-		if err != nil {
+		if err != nil && cs.strict() && !bridgeIsTimeout(err) {
+			// neither peer has closed, yet the connection failed under the writer: the writer gives up
+			// and closes; the bytes its Write calls had accepted are what was sent before the close
+			res.WriteErr = err.Error()
+		} else if err != nil {
 			res.Harness = fmt.Sprintf("closer could not write its %d bytes before closing: %d written: %v", xTotal, n, err)
 			finish()
 			return res
 		}
 	}
-	if _, _, eos, _ := py.state(); eos != "" {
+	if _, _, eos, _ := py.state(); eos != "" && res.WriteErr == "" {
 		res.Harness = "the other peer's connection ended before the first peer closed: " + eos
 		res.EOS = eos
 		finish()
@@ -456,6 +470,9 @@ func c16Class(c *c16Case) string {
 		s += "|n:" + sizeClass(c.N)
 		if c.Slow {
 			s += fmt.Sprintf("|burst:%dMiB|slow-reader", c.N>>20)
+		}
+		if c.StallMs > 0 {
+			s += fmt.Sprintf("|burst:%dMiB|reader-stalls:%dms", c.N>>20, c.StallMs)
 		}
 	case "opposite":
 		s += fmt.Sprintf("|chunk:%d|drain:%v", c.Chunk, c.Drain)
@@ -560,7 +577,7 @@ func c16Churn(rng *rand.Rand, n int) []c16Case {
 
 // C16 — closing one end of a bridged TCP connection closes the other.
 func C16(r *core.Run) {
-	r.SetRule("harness TCP client -> real tcp-bridge-frontend -> real tcp-bridge-backend -> harness TCP server; per connection one peer closes first ({client, server} x {never used, idle after an exchange, its own data in flight, the other peer's data in flight, both} x sizes; full close, CloseWrite followed by close, abortive close (SetLinger(0) or Close with unread data), and 4-16 MiB bursts closed at once towards a slow-reading peer); the other peer must read end-of-stream within T=10s of (close, last byte of the data sent before the close); with both peers gone each bridge process' socket count (/proc/<pid>/fd) must be back at its idle baseline within T; a missed bound is re-run alone on a fresh pair of bridge processes before it is reported; class = (phase, who closes first, close kind, what is in flight, sizes)")
+	r.SetRule("harness TCP client -> real tcp-bridge-frontend -> real tcp-bridge-backend -> harness TCP server; per connection one peer closes first ({client, server} x {never used, idle after an exchange, its own data in flight, the other peer's data in flight, both} x sizes; full close, CloseWrite followed by close, abortive close (SetLinger(0) or Close with unread data), 4-16 MiB bursts closed at once towards a slow-reading peer, and a 32 MiB burst closed at once towards a peer that reads nothing for 14 s); websocket handshakes on the streaming path that the backend refuses (extensions offered, bad version, no key, foreign origin, POST) must leave no connection to the TCP server; the other peer must read end-of-stream within T=10s of (close, last byte of the data sent before the close); with both peers gone each bridge process' socket count (/proc/<pid>/fd) must be back at its idle baseline within T; a missed bound is re-run alone on a fresh pair of bridge processes before it is reported; class = (phase, who closes first, close kind, what is in flight, sizes)")
 	r.Assume("a half close (CloseWrite) is only observed; the verdict is taken after the same peer has fully closed")
 	r.Assume("completeness of the data sent before the close is judged only for a graceful close by a peer that had nothing unread (never used / idle / own data in flight, including the slow-reader bursts); for abortive closes only the propagation of the close and the release of the sockets are judged: closing a TCP socket with unread data resets the connection and may discard the closer's own data even without a bridge")
 	bins := bridgeBuild(r)
@@ -581,6 +598,12 @@ func C16(r *core.Run) {
 	cases = append(cases, c16Churn(rng, r.Pick(40, 200))...)
 	nChurn := len(cases)
 	cases = append(cases, c16SlowCases(rng, r.Quick())...)
+	nSlow := len(cases)
+	// stalled readers: the writer pushes 32 MiB (far more than the socket buffers on the way hold) and
+	// closes at once, the other peer reads nothing for 14 s and then drains: every byte, then end-of-stream
+	for _, who := range []string{"client", "server"} {
+		cases = append(cases, c16Case{Closer: who, Kind: "full", Flight: "same", N: 32<<20 + 1, StallMs: 14000, Phase: "stalled"})
+	}
 	for i := range cases {
 		cases[i].ID = i
 		cases[i].Class = c16Class(&cases[i])
@@ -599,6 +622,15 @@ func C16(r *core.Run) {
 			live.Add(-1)
 		}()
 	}
+	// the stalled-reader connections run alongside everything else
+	var stallWG sync.WaitGroup
+	for i := nSlow; i < len(cases); i++ {
+		stallWG.Add(1)
+		go func(i int) {
+			defer stallWG.Done()
+			results[i] = e.run(cases[i])
+		}(i)
+	}
 	// matrix: all histories side by side (connection set-up is serialised by the engine)
 	for i := 0; i < nMatrix; i++ {
 		start(i)
@@ -614,12 +646,16 @@ func C16(r *core.Run) {
 	wg.Wait()
 	// slow readers: at most four at a time and nothing else running, so that the reader (not the
 	// bridge) is the bottleneck and data is still queued inside the bridge when the writer closes
-	for i := nChurn; i < len(cases); i += 4 {
-		for j := i; j < i+4 && j < len(cases); j++ {
+	if !r.Quick() {
+		stallWG.Wait() // thorough: the matrix outlasts the stall; keep the drain out of the slow-reader phase
+	}
+	for i := nChurn; i < nSlow; i += 4 {
+		for j := i; j < i+4 && j < nSlow; j++ {
 			start(j)
 		}
 		wg.Wait()
 	}
+	stallWG.Wait()
 	fC, bC, leakC := e.settle()
 	r.Set("sockets_right_after_matrix(not_settled)", map[string]int{"frontend": fM, "backend": bM})
 	r.Set("sockets_after_all_peers_gone_for_T", map[string]int{"frontend": fC, "backend": bC})
@@ -667,12 +703,16 @@ func C16(r *core.Run) {
 		if cs.Slow {
 			r.Add("slow_reader_bursts_delivered_bytes", int(res.PreCloseRecv))
 		}
+		if cs.StallMs > 0 {
+			r.Add("stalled_reader_bursts_delivered_bytes", int(res.PreCloseRecv))
+		}
 		if cs.Kind == "abort" || cs.Flight == "unread" {
 			r.Add("abortive_closes_propagated", 1)
 		}
 		if strict && (res.PreCloseRecv != want || res.Altered) {
 			r.Violate("C16:data-before-close-lost:"+cs.Closer+"-closes-first",
-				fmt.Sprintf("case %d (%s): the other peer's stream ended (%s) after %d of the %d bytes written before the graceful close (altered=%v)", cs.ID, cs.Class, res.EOS, res.PreCloseRecv, want, res.Altered), cs, res)
+				fmt.Sprintf("case %d (%s): the other peer's stream ended (%s) after %d of the %d bytes written before the graceful close (altered=%v)%s", cs.ID, cs.Class, res.EOS, res.PreCloseRecv, want, res.Altered,
+					map[bool]string{true: "; the writer's connection failed under it while neither peer had closed: " + res.WriteErr, false: ""}[res.WriteErr != ""]), cs, res)
 		} else if !strict && res.PreCloseRecv != want {
 			r.Add("pre_close_data_incomplete_after_reset_prone_close(observed_only)", 1)
 		}
@@ -805,6 +845,29 @@ func C16(r *core.Run) {
 		}
 	}
 
+	// ---- websocket handshakes the backend refuses must not leave a connection to the TCP server behind
+	for attempt := 0; attempt < 2; attempt++ {
+		held, leaked, detail, err := c16Refused(r, bins, fmt.Sprintf("-refused%d", attempt), r.Pick(2, 8), attempt == 0)
+		if err != nil {
+			r.Broken("refused-upgrade topology: " + err.Error())
+			break
+		}
+		if held == 0 && !leaked {
+			if attempt == 1 {
+				r.Inconclusive("refused-upgrade phase missed its bound once but not when repeated on fresh processes")
+			}
+			break
+		}
+		if attempt == 1 {
+			if held > 0 {
+				r.Violate("C16:connection-outlives-endpoints:refused-upgrade", fmt.Sprintf("the bridge backend refused websocket handshakes on the streaming path, the clients left, yet %d connection(s) it had opened to the TCP server saw no end-of-stream within %s (repeated on fresh processes)", held, c16Bound), nil, detail)
+			}
+			if leaked {
+				r.Violate("C16:sockets-leaked:refused-upgrade", fmt.Sprintf("after refused websocket handshakes the backend process does not return to its idle socket count within %s: %v", c16Bound, detail), nil, detail)
+			}
+		}
+	}
+
 	judgeProcs(r, true, e.topo.Front, e.topo.Back)
 	e.close()
 	_ = procs
@@ -879,4 +942,109 @@ func c16Unreachable(r *core.Run, bins bridgeBins, suffix string, n int) (missed 
 	r.Add("unreachable_server_clients_released", len(lat))
 	judgeProcs(r, true, topo.Front, topo.Back)
 	return missed, leaked, detail, nil
+}
+
+// c16Refused sends websocket handshakes on the streaming path that the
+// upgrader refuses straight to a fresh bridge backend. Nothing was bridged
+// and the clients leave at once, so within the bound the TCP server must hold
+// no connection that has not seen end-of-stream and the backend must be back
+// at its idle socket count.
+func c16Refused(r *core.Run, bins bridgeBins, suffix string, reps int, count bool) (held int, leaked bool, detail map[string]interface{}, err error) {
+	sp, err := bridgeStreamingPath()
+	if err != nil {
+		return 0, false, nil, err
+	}
+	type accepted struct {
+		eos atomic.Bool
+	}
+	var mu sync.Mutex
+	var accs []*accepted
+	var stop atomic.Bool
+	srv, err := bridgeNewTCPServer(func(c *net.TCPConn, _ int) {
+		defer c.Close()
+		a := &accepted{}
+		mu.Lock()
+		accs = append(accs, a)
+		mu.Unlock()
+		buf := make([]byte, 4096)
+		for !stop.Load() {
+			c.SetReadDeadline(time.Now().Add(100 * time.Millisecond))
+			if _, err := c.Read(buf); err != nil && !bridgeIsTimeout(err) {
+				a.eos.Store(true) // EOF or reset: the bridge let go of it
+				return
+			}
+		}
+	})
+	if err != nil {
+		return 0, false, nil, err
+	}
+	defer srv.Close()
+	defer stop.Store(true)
+	topo, err := bridgeStartTopo(r, bins, suffix, srv.Port)
+	if err != nil {
+		return 0, false, nil, err
+	}
+	defer topo.Kill()
+	kinds := []struct {
+		name, method string
+		fields       []rawhttp.Field
+		key          bool
+		version      string
+	}{
+		{"extensions-offered", "GET", []rawhttp.Field{{Name: "Sec-WebSocket-Extensions", Value: "permessage-deflate; client_max_window_bits"}}, true, "13"},
+		{"unsupported-version", "GET", nil, true, "8"},
+		{"no-key", "GET", nil, false, "13"},
+		{"foreign-origin", "GET", []rawhttp.Field{{Name: "Origin", Value: "http://elsewhere.example"}}, true, "13"},
+		{"post-method", "POST", []rawhttp.Field{{Name: "Content-Length", Value: "0"}}, true, "13"},
+	}
+	statuses := map[string][]int{}
+	for _, k := range kinds {
+		for i := 0; i < reps; i++ {
+			var w rawhttp.Builder
+			w.Line(k.method+" "+sp+" HTTP/1.1").Field("Host", topo.BackAddr).Field("Connection", "Upgrade").Field("Upgrade", "websocket").
+				Field("Sec-WebSocket-Version", k.version)
+			if k.key {
+				w.Field("Sec-WebSocket-Key", "dGhlIHNhbXBsZSBub25jZQ==")
+			}
+			w.Fields(k.fields).End()
+			cl := rawhttp.NewClient(topo.BackAddr, 10*time.Second)
+			m, derr := cl.Do(w.Bytes(), k.method)
+			cl.Close() // the client is gone, whatever the answer was
+			st := -1
+			if derr == nil && m != nil {
+				st = m.Status
+			}
+			statuses[k.name] = append(statuses[k.name], st)
+		}
+		if count {
+			r.Cases("refused-upgrade|"+k.name, reps)
+		}
+	}
+	gone := time.Now()
+	time.Sleep(200 * time.Millisecond) // the bridge answers after it has dialled (if it dials at all); this only covers the accept loop's lag
+	var f, b, n int
+	for {
+		held = 0
+		mu.Lock()
+		n = len(accs)
+		for _, a := range accs {
+			if !a.eos.Load() {
+				held++
+			}
+		}
+		mu.Unlock()
+		f, b = topo.Census()
+		leaked = b > topo.BackBase || f > topo.FrontBase
+		if (held == 0 && !leaked) || time.Since(gone) > c16Bound {
+			break
+		}
+		time.Sleep(50 * time.Millisecond)
+	}
+	detail = map[string]interface{}{"handshake_statuses": statuses, "connections_opened_to_tcp_server": n, "of_those_without_end_of_stream": held,
+		"sockets_backend": b, "idle_backend": topo.BackBase, "sockets_frontend": f, "idle_frontend": topo.FrontBase}
+	if count {
+		r.Set("refused_upgrade_phase", detail)
+	}
+	judgeProcs(r, true, topo.Front, topo.Back)
+	return held, leaked, detail, nil
 }
